@@ -88,7 +88,9 @@ type feffect struct {
 	// capture > 0: the (capture-1)-th argument of the call is an integer expression (the exponent
 	// handed to setExpAndRound) translated into the output field `arg`
 	capture int
-	seen    bool
+	// capture2 > 0: likewise, the (capture2-1)-th argument (signed or unsigned) into `arg2`
+	capture2 int
+	seen     bool
 }
 
 // fmop: a mantissa statement (matched by its source text) that is recorded in the output field
@@ -231,6 +233,15 @@ func (t *ftr) captures() bool {
 	return false
 }
 
+func (t *ftr) captures2() bool {
+	for _, e := range t.f.effects {
+		if e.capture2 > 0 {
+			return true
+		}
+	}
+	return false
+}
+
 // captureArg renders `let arg : Int := …` for an effect that captures an argument.
 func (t *ftr) captureArg(ef *feffect, ce *ast.CallExpr, c fctx) string {
 	if ef.capture == 0 {
@@ -243,7 +254,23 @@ func (t *ftr) captureArg(ef *feffect, ce *ast.CallExpr, c fctx) string {
 	if ty, ok := t.typeOf(unparen(a)); !ok || ty.k != kInt {
 		return c.indent + t.fail(a, "captured argument is not a signed integer") + "\n"
 	}
-	return fmt.Sprintf("%slet arg : Int := %s\n", c.indent, t.ex(a, c))
+	out := fmt.Sprintf("%slet arg : Int := %s\n", c.indent, t.ex(a, c))
+	if ef.capture2 > 0 {
+		if ef.capture2 > len(ce.Args) {
+			return c.indent + t.fail(ce, "second captured argument missing") + "\n"
+		}
+		b := ce.Args[ef.capture2-1]
+		ty, ok := t.typeOf(unparen(b))
+		if !ok || ty.k == kBool {
+			return c.indent + t.fail(b, "second captured argument is not an integer") + "\n"
+		}
+		v := t.ex(b, c)
+		if ty.k == kNat {
+			v = "(Int.ofNat " + v + ")"
+		}
+		out += fmt.Sprintf("%slet arg2 : Int := %s\n", c.indent, v)
+	}
+	return out
 }
 
 func (t *ftr) noteType(p *fparam, e ast.Expr) {
@@ -509,6 +536,9 @@ func (t *ftr) ret(vals []string, outcome int, c fctx) string {
 		if t.captures() {
 			fs = append(fs, "arg := arg")
 		}
+		if t.captures2() {
+			fs = append(fs, "arg2 := arg2")
+		}
 		if len(t.f.mops) > 0 {
 			fs = append(fs, "mtrace := mtrace")
 		}
@@ -727,7 +757,12 @@ func (t *ftr) stmts(list []ast.Stmt, c fctx, k func(c fctx) string) string {
 		return out + next(c)
 	case *ast.IfStmt:
 		if x.Init != nil {
-			return c.indent + t.fail(x, "if with init statement") + "\n"
+			// `if init; cond {…}`: the init statement, then the plain `if`, in a scope of their own
+			plain := *x
+			plain.Init = nil
+			outer := c.locals
+			back := func(ci fctx) string { ci.locals = restrict(ci.locals, outer); return next(ci) }
+			return t.stmts([]ast.Stmt{x.Init, &plain}, c, back)
 		}
 		if v, isConst := t.constBool(x.Cond); isConst {
 			if !v && x.Else == nil {
@@ -935,6 +970,17 @@ func stmtString(p *pkgInfo, s ast.Stmt) string {
 			r = append(r, types.ExprString(e))
 		}
 		return strings.TrimSpace("return " + strings.Join(r, ", "))
+	case *ast.DeclStmt:
+		// `var a, b T` without initial values
+		if gd, ok := x.Decl.(*ast.GenDecl); ok && gd.Tok == token.VAR && len(gd.Specs) == 1 {
+			if vs, ok := gd.Specs[0].(*ast.ValueSpec); ok && len(vs.Values) == 0 && vs.Type != nil {
+				var n []string
+				for _, id := range vs.Names {
+					n = append(n, id.Name)
+				}
+				return "var " + strings.Join(n, ", ") + " " + types.ExprString(vs.Type)
+			}
+		}
 	}
 	return fmt.Sprintf("%T", s)
 }
@@ -1251,6 +1297,53 @@ func baseFacts() []*fact {
 				{src: "z.usub(x, y)", code: 2, havoc: kernelHavoc},
 				{src: "z.usub(y, x)", code: 3, havoc: kernelHavoc},
 				{src: "z.Set(x)", code: 4}, {src: "z.Set(y)", code: 5}}},
+		// the unsigned kernels: exponent arithmetic, branch selection and the shift/extension amounts; the
+		// mantissa statements are recorded in `mtrace` (code, integer arguments) in execution order
+		{lean: "uadd", fn: "Decimal.uadd", stateful: true,
+			params: ps("xExp", "x.exp", "lenX", "len(x.mant)", "yExp", "y.exp", "lenY", "len(y.mant)",
+				"sameZX", "same(z.mant, x.mant)", "sameZY", "same(z.mant, y.mant)", "lenZ", "len(z.mant)", "dn", "dnorm(z.mant)"),
+			mops: []*fmop{
+				{src: "t := dec(nil).shl(y.mant, uint(ey - ex))", code: 1, args: []string{"uint(ey - ex)"}},
+				{src: "z.mant = z.mant.add(x.mant, t)", code: 2},
+				{src: "z.mant = z.mant.shl(y.mant, uint(ey - ex))", code: 3, args: []string{"uint(ey - ex)"}},
+				{src: "z.mant = z.mant.add(x.mant, z.mant)", code: 4},
+				{src: "z.mant = z.mant.add(x.mant, y.mant)", code: 5},
+				{src: "t := dec(nil).shl(x.mant, uint(ex - ey))", code: 6, args: []string{"uint(ex - ey)"}},
+				{src: "z.mant = z.mant.add(t, y.mant)", code: 7},
+				{src: "z.mant = z.mant.shl(x.mant, uint(ex - ey))", code: 8, args: []string{"uint(ex - ey)"}},
+				{src: "z.mant = z.mant.add(z.mant, y.mant)", code: 9}},
+			effects: []*feffect{{src: "z.setExpAndRound", code: 1, capture: 1, capture2: 2}}},
+		{lean: "usub", fn: "Decimal.usub", stateful: true,
+			params: append(ps("xExp", "x.exp", "lenX", "len(x.mant)", "yExp", "y.exp", "lenY", "len(y.mant)",
+				"sameZX", "same(z.mant, x.mant)", "sameZY", "same(z.mant, y.mant)", "lenZ", "len(z.mant)", "dn", "dnorm(z.mant)"),
+				st("zAcc", "z.acc", "zForm", "z.form", "zNeg", "z.neg")...),
+			mops: []*fmop{
+				{src: "t := dec(nil).shl(y.mant, uint(ey - ex))", code: 1, args: []string{"uint(ey - ex)"}},
+				{src: "z.mant = t.sub(x.mant, t)", code: 2},
+				{src: "z.mant = z.mant.shl(y.mant, uint(ey - ex))", code: 3, args: []string{"uint(ey - ex)"}},
+				{src: "z.mant = z.mant.sub(x.mant, z.mant)", code: 4},
+				{src: "z.mant = z.mant.sub(x.mant, y.mant)", code: 5},
+				{src: "t := dec(nil).shl(x.mant, uint(ex - ey))", code: 6, args: []string{"uint(ex - ey)"}},
+				{src: "z.mant = t.sub(t, y.mant)", code: 7},
+				{src: "z.mant = z.mant.shl(x.mant, uint(ex - ey))", code: 8, args: []string{"uint(ex - ey)"}},
+				{src: "z.mant = z.mant.sub(z.mant, y.mant)", code: 9}},
+			effects: []*feffect{{src: "z.setExpAndRound", code: 1, capture: 1, capture2: 2}}},
+		{lean: "umul", fn: "Decimal.umul", stateful: true,
+			params: ps("xExp", "x.exp", "yExp", "y.exp", "xIsY", "x == y", "dn", "dnorm(z.mant)"),
+			mops: []*fmop{
+				{src: "z.mant = z.mant.sqr(x.mant)", code: 1},
+				{src: "z.mant = z.mant.mul(x.mant, y.mant)", code: 2}},
+			effects: []*feffect{{src: "z.setExpAndRound", code: 1, capture: 1, capture2: 2}}},
+		{lean: "uquo", fn: "Decimal.uquo", stateful: true,
+			params: ps("zPrec", "z.prec", "xExp", "x.exp", "lenX", "len(x.mant)", "yExp", "y.exp", "lenY", "len(y.mant)",
+				"lenXadj", "len(xadj)", "lenZ", "len(z.mant)", "lenR", "len(r)", "dn", "dnorm(z.mant)"),
+			mops: []*fmop{
+				{src: "xadj := x.mant", code: 1},
+				{src: "xadj = make(dec, len(x.mant) + d)", code: 2, args: []string{"len(x.mant) + d"}},
+				{src: "copy(xadj[d:], x.mant)", code: 3, args: []string{"d"}},
+				{src: "var r dec", code: 4},
+				{src: "z.mant, r = z.mant.div(nil, xadj, y.mant)", code: 5}},
+			effects: []*feffect{{src: "z.setExpAndRound", code: 1, capture: 1, capture2: 2}}},
 		{lean: "Sub", fn: "Decimal.Sub", stateful: true,
 			params: append(ps("mode", "z.mode", "zIsNotY", "z != y", "xForm", "x.form", "xNeg", "x.neg", "xPrec", "x.prec",
 				"yForm", "y.form", "yNeg", "y.neg", "yPrec", "y.prec", "yExp", "y.exp",
@@ -1280,11 +1373,12 @@ set_option linter.unusedVariables false
 
 namespace Decimal.Gen.Facts
 
-/-- two's-complement reduction to int8 / int16 / int32 / int64 -/
-def wrapI8 (n : Int) : Int := (n + 128) % 256 - 128
-def wrapI16 (n : Int) : Int := (n + 32768) % 65536 - 32768
-def wrapI32 (n : Int) : Int := (n + 2147483648) % 4294967296 - 2147483648
-def wrapI64 (n : Int) : Int := (n + 9223372036854775808) % 18446744073709551616 - 9223372036854775808
+/-- two's-complement reduction to int8 / int16 / int32 / int64 (literal first: the kernel unfolds x + literal
+    on a symbolic x successor by successor) -/
+def wrapI8 (n : Int) : Int := (128 + n) % 256 - 128
+def wrapI16 (n : Int) : Int := (32768 + n) % 65536 - 32768
+def wrapI32 (n : Int) : Int := (2147483648 + n) % 4294967296 - 2147483648
+def wrapI64 (n : Int) : Int := (9223372036854775808 + n) % 18446744073709551616 - 9223372036854775808
 
 `
 
@@ -1408,6 +1502,9 @@ func genFacts(p *pkgInfo) (string, []string) {
 				if t.captures() {
 					text += "  let arg : Int := 0\n"
 				}
+				if t.captures2() {
+					text += "  let arg2 : Int := 0\n"
+				}
 				if len(f.mops) > 0 {
 					text += "  let mtrace : List (Nat × List Int) := []\n"
 				}
@@ -1478,6 +1575,9 @@ func genFacts(p *pkgInfo) (string, []string) {
 			if t.captures() {
 				sb.WriteString("  arg : Int\n")
 			}
+			if t.captures2() {
+				sb.WriteString("  arg2 : Int\n")
+			}
 			if len(f.mops) > 0 {
 				sb.WriteString("  mtrace : List (Nat × List Int)\n")
 			}
@@ -1500,6 +1600,9 @@ func genFacts(p *pkgInfo) (string, []string) {
 				s := fmt.Sprintf("tail %d = %s", ef.code, ef.src)
 				if ef.capture > 0 {
 					s += fmt.Sprintf(" (arg = its argument %d)", ef.capture)
+				}
+				if ef.capture2 > 0 {
+					s += fmt.Sprintf(" (arg2 = its argument %d)", ef.capture2)
 				}
 				es = append(es, s)
 			}
